@@ -56,10 +56,20 @@ var initOnce sync.Once
 // only for diagnostics) — and keeps HandleError from sleeping.
 var HandledErrors int
 
+var (
+	handledMu   sync.Mutex
+	lastHandled error
+)
+
 func globalInit() {
 	initOnce.Do(func() {
 		klog.SetLogger(logr.Discard())
-		utilruntime.ErrorHandlers = []func(error){func(error) { HandledErrors++ }}
+		utilruntime.ErrorHandlers = []func(error){func(err error) {
+			HandledErrors++
+			handledMu.Lock()
+			lastHandled = err
+			handledMu.Unlock()
+		}}
 		// client-go's conflict-retry helpers sleep between attempts (10ms..310ms in total). Keep the
 		// number of attempts, drop the real-time waiting: nothing in the simulation advances with
 		// wall-clock time.
